@@ -95,3 +95,31 @@ def cond_truth_of_call(p, callee, argpred=None):
                 truth = not taken
         out.append((k, e, truth))
     return out
+
+
+def queue_empty_facts(p, K):
+    """{'runq' | 'timerq' | 'atomic': (True = known empty | False = known non-empty, event index of the test)} on path p.
+    Recognised tests: list_empty(q), messageq_empty(&atomic_runq), q.head == NULL, list_peek(q) == NULL."""
+    facts = {}
+    for k, e, truth in cond_truth_of_call(p, "list_empty"):
+        q = K.queue_arg(e.args[0])
+        if q in ("runq", "timerq") and truth is not None:
+            facts[q] = (truth, k)
+    for k, e, truth in cond_truth_of_call(p, "messageq_empty"):
+        if K.queue_arg(e.args[0]) == "atomic_runq" and truth is not None:
+            facts["atomic"] = (truth, k)
+    for n, (c, taken, inst) in enumerate(p.conds):
+        cc = strip_casts(c)
+        if cc[0] != "icmp" or cc[1] not in ("eq", "ne"):
+            continue
+        for a, b in ((cc[2], cc[3]), (cc[3], cc[2])):
+            a = strip_casts(a)
+            if b != ("null",):
+                continue
+            for q in ("runq", "timerq"):
+                if a[0] == "ld" and a[1] == K.kptr(q):
+                    facts[q] = ((cc[1] == "eq") == bool(taken), p.cond_pos[n] if n < len(p.cond_pos) else 0)
+            if a[0] == "call" and a[1] == "list_peek" and K.queue_arg(a[2][0]) in ("runq", "timerq"):
+                kk = [k for k, e in calls_on(p) if e.res == a]
+                facts[K.queue_arg(a[2][0])] = ((cc[1] == "eq") == bool(taken), kk[0] if kk else 0)
+    return facts
